@@ -282,8 +282,10 @@ def compare_call(c, run):
     if lines != exp:
         return 'values', 'stdout %r; rule: %r' % (lines, exp)
     for nm in unset:
-        if ("variable '%s' does not exist" % nm) not in err:
-            return 'unset', 'no "does not exist" error for $%s (stderr %r); rule: the parameter stays unset' % (nm, err[:300])
+        # the line printing an unset variable fails (stdout was compared above); the error has to name the variable - its
+        # wording is not part of the property
+        if not re.search(r"\b%s\b" % re.escape(nm), err):
+            return 'unset', 'no error naming $%s (stderr %r); rule: the parameter stays unset' % (nm, err[:300])
     if not unset and (run['exit'] != 0 or err.strip()):
         return 'failed', 'exit number %d, stderr %r on a call that binds every parameter' % (run['exit'], err[:300])
     return None
